@@ -301,7 +301,17 @@ class GroupedType(BaseDataType):
 
 
     def __setitem__(self, idx, value):
+        previous = self._avps[idx]
         self._avps[idx] = value
+
+        for key, item in self.__dict__.items():
+            if item is previous and "_avp" in key and key != "_avps":
+                self.__dict__[key] = value
+                break
+
+        self._data = b""
+        for avp in self.avps:
+            self._data += avp.dump()
 
 
     def append(self, avp):
